@@ -185,7 +185,16 @@ func verifTrackCap(re *Regexp) int {
 
 func VerifCheck_limit() {
 	n := verifParamInt("n")
-	t := verifText(n)
+	var t []rune
+	if verifParam("textdom") == "a-e" {
+		// long runs of loops: a five-letter domain keeps the text classes few
+		t = make([]rune, n)
+		for i := range t {
+			t[i] = verifRuneIn("t"+string(rune('0'+i)), 'a', 'e')
+		}
+	} else {
+		t = verifText(n)
+	}
 	lmax := verifParamInt("lmax")
 	_ = lmax
 	L := verifIntSet("L", verifParam("ldom"))
